@@ -13,11 +13,25 @@ Theorem C08_node_faithful : forall b id o0 o1 o2 o3 o4 o5,
 Proof. exact inst_node_faithful. Qed.
 Print Assumptions C08_node_faithful.
 
-(* "every operand handed to _emit is kept" is false: an operand after an empty slot of the extended part is dropped (op_count_from_emit_args) *)
-Theorem C08_all_operands_kept_refuted : exists o0 o1 o2 o4,
-  is_none o4 = false /\ canon_ops o0 o1 o2 op_none o4 op_none = [o0; o1; o2; op_none; op_none; op_none].
-Proof. exact hole_drops_operand. Qed.
-Print Assumptions C08_all_operands_kept_refuted.
+(* every operand handed to _emit is kept, also one that follows an empty slot (EmitterUtils::op_count_from_emit_args counts up to the last
+   used slot: fixes/C08-op-count-keeps-operands-after-hole.patch); empty slots stay empty; six slots always.  With the counting rule of
+   the unrepaired tree the statement is false: C08_legacy_count_drops_operand *)
+Theorem C08_all_operands_kept : forall o0 o1 o2 o3 o4 o5,
+  length (canon_ops o0 o1 o2 o3 o4 o5) = 6%nat /\
+  forall i, (if is_none (nth i [o0; o1; o2; o3; o4; o5] op_none)
+             then is_none (nth i (canon_ops o0 o1 o2 o3 o4 o5) op_none) = true
+             else nth i (canon_ops o0 o1 o2 o3 o4 o5) op_none = nth i [o0; o1; o2; o3; o4; o5] op_none).
+Proof.
+  intros. split; [apply canon_ops_shape|]. intro i.
+  destruct (is_none (nth i [o0; o1; o2; o3; o4; o5] op_none)) eqn:E; [now apply canon_ops_shape | now apply all_operands_kept].
+Qed.
+
+Print Assumptions C08_all_operands_kept.
+
+Theorem C08_legacy_count_drops_operand : exists o0 o1 o2 o4,
+  is_none o4 = false /\ op_count_legacy o0 o1 o2 op_none o4 op_none = 3%nat /\ op_count o0 o1 o2 op_none o4 op_none = 5%nat.
+Proof. exact legacy_count_drops_operand. Qed.
+Print Assumptions C08_legacy_count_drops_operand.
 
 (* serialize_to performs exactly the nodes' calls, in list order, whatever one-shot state was pending *)
 Theorem C08_serialize_is_node_calls : forall b, trace (replay b) = flat_map node_ecalls (active b).
@@ -165,7 +179,7 @@ Theorem C08_section_switch_after_any_history : forall rs cs s,
 Proof. exact section_switch_after_any_history. Qed.
 Print Assumptions C08_section_switch_after_any_history.
 
-From Verif Require Import Labels.LabelsModel Builder.AsmOrder Builder.BuilderImage.
+From Verif Require Import Codec.OffsetModel Labels.LabelsModel Reloc.RelocModel Builder.AsmOrder Builder.BuilderImage Builder.DeltaEffect.
 
 (* ORDER IRRELEVANCE of assembling, proved on C03's label/fixup machine (Verif.Labels.LabelsModel: new_fixup, bind_label with its fixup
    walk, resolve_cross_section_fixups, every displacement format of the two backends): two programs whose per-section operation sequences
@@ -176,9 +190,12 @@ From Verif Require Import Labels.LabelsModel Builder.AsmOrder Builder.BuilderIma
    displacement: kInvalidDisplacement, nothing changes) is a no-op in both orders: the machine's precheck over the pending fixups is proved
    equal to a check over the section's own reference items (precheck_local).  Fragment: raw bytes, gaps, label references, binds and absolute
    references (embed_label: the RelToAbs relocation entries are the same up to creation order, with the same final payload and target
-   section); label deltas (embed_label_delta) are outside. *)
+   section) and LABEL DELTAS (embed_label_delta, SDelta -> ODeltaChecked: written at once with its range check when both labels are
+   already bound in the delta's own section, otherwise zero bytes + an expression relocation entry - the entries again the same up to
+   creation order).  Side condition delta_local_final, stated on the final label table and itself independent of the order: no delta takes
+   BOTH labels from one section other than its own (there the two orders differ in when the same bytes get written: C08_delta_by_effect). *)
 Theorem C08_order_irrelevant : forall nl ns t1 t2 offs,
-  (forall k, proj k t1 = proj k t2) -> tags_ok ns t1 -> tags_ok ns t2 -> NoDup (bound_labels t1) -> nowrap nl ns t1 offs ->
+  (forall k, proj k t1 = proj k t2) -> tags_ok ns t1 -> tags_ok ns t2 -> NoDup (bound_labels t1) -> delta_local_final nl ns t1 -> nowrap nl ns t1 offs ->
   let s1 := LabelsModel.run init ((prelude nl ns ++ expand t1) ++ [OResolve offs]) in
   let s2 := LabelsModel.run init ((prelude nl ns ++ expand t2) ++ [OResolve offs]) in
   labels s1 = labels s2 /\ unresolved s1 = unresolved s2 /\ Permutation (relocs s1) (relocs s2) /\
@@ -188,11 +205,33 @@ Theorem C08_order_irrelevant : forall nl ns t1 t2 offs,
 Proof. exact order_irrelevant'. Qed.
 Print Assumptions C08_order_irrelevant.
 
+(* the side condition is order independent, and implies its call-time form for every interleaving *)
+Theorem C08_delta_side_condition : forall nl ns t1 t2, (forall k, proj k t1 = proj k t2) -> tags_ok ns t1 -> tags_ok ns t2 ->
+  delta_local_final nl ns t1 -> delta_local_final nl ns t2 /\ delta_local nl ns t1 /\ delta_local nl ns t2.
+Proof.
+  intros nl ns t1 t2 HP T1 T2 D1. assert (D2 := delta_local_final_transfers nl ns t1 t2 HP T1 T2 D1).
+  split; [exact D2|]. split; apply delta_local_of_final; assumption.
+Qed.
+Print Assumptions C08_delta_side_condition.
+
+(* LABEL DELTAS BY EFFECT (the shape the side condition excludes): when both labels of a delta end up bound in one section and the
+   difference fits the field - the immediate path's own range check - relocating the expression entry (C04's relocate_entry on C03's
+   entry, any base, any section offsets) succeeds, touches nothing else and writes exactly the bytes the immediate path writes. *)
+Theorem C08_delta_by_effect : forall base asize atoff slots (s : state) offs re l b size ls lo bo,
+  rl_type re = Expr l b -> rl_size re = size -> (size = 1 \/ size = 2 \/ size = 4 \/ size = 8) ->
+  nth_error (labels s) l = Some (Some (ls, lo)) -> nth_error (labels s) b = Some (Some (ls, bo)) ->
+  - 2 ^ (8 * size - 1) <= lo - bo < 2 ^ (8 * size - 1) ->
+  exists o, relocate_entry base asize atoff slots (entry_of_reloc s offs re) = inl (o, slots) /\
+            o_rewrite o = None /\ o_slot o = None /\
+            le_split (Z.to_nat size) (o_word o) = le_split (Z.to_nat size) (wrap (8 * size) (lo - bo)).
+Proof. exact delta_entry_effect. Qed.
+Print Assumptions C08_delta_by_effect.
+
 (* SAME IMAGE (was C08_same_image_partial with the whole assembler as hypothesis): for EVERY instruction encoder [enc] whose output for a
    call depends on the call and on the calls issued before in the same section, assembling what the Builder serializes and assembling the
    calls directly give - on C03's machine - the same label table, section sizes and resolved bytes in every section. *)
 (* ... and the layout + resolution step itself reports no error, in any order *)
-Theorem C08_resolve_ok : forall nl ns t offs, tags_ok ns t -> NoDup (bound_labels t) -> nowrap nl ns t offs ->
+Theorem C08_resolve_ok : forall nl ns t offs, tags_ok ns t -> NoDup (bound_labels t) -> delta_local nl ns t -> nowrap nl ns t offs ->
   snd (LabelsModel.step (LabelsModel.run init (prelude nl ns ++ expand t)) (OResolve offs)) = EOk.
 Proof. exact resolve_ok. Qed.
 Print Assumptions C08_resolve_ok.
@@ -201,7 +240,7 @@ Theorem C08_same_image : forall (enc : list ecall -> ecall -> list sop) nl ns of
   Forall (fun c => is_emitter_call c = true) cs -> all_ok (init_state rs) cs = true ->
   let direct := program enc (trace cs) in
   let serialized := program enc (trace (replay (BuilderModel.run (init_state rs) cs))) in
-  secs_valid ns (trace cs) -> NoDup (bound_labels direct) -> nowrap nl ns direct offs ->
+  secs_valid ns (trace cs) -> NoDup (bound_labels direct) -> delta_local_final nl ns direct -> nowrap nl ns direct offs ->
   let s1 := LabelsModel.run init ((prelude nl ns ++ expand direct) ++ [OResolve offs]) in
   let s2 := LabelsModel.run init ((prelude nl ns ++ expand serialized) ++ [OResolve offs]) in
   labels s1 = labels s2 /\ unresolved s1 = unresolved s2 /\ Permutation (relocs s1) (relocs s2) /\
@@ -215,7 +254,7 @@ Print Assumptions C08_same_image.
 Theorem C08_same_image_example :
   let direct := program enc_ex (trace example_program) in
   secs_valid 1 (trace example_program) /\ NoDup (bound_labels direct) /\ nowrap 2 1 direct [0; 4096] /\
-  proj 0 direct <> [] /\ proj 1 direct <> [].
+  proj 0 direct <> [] /\ proj 1 direct <> [] /\ delta_local_final 2 1 direct /\ In (1%nat, SDelta 1 0 4) direct.
 Proof. exact example_image_hypotheses. Qed.
 Print Assumptions C08_same_image_example.
 
@@ -267,7 +306,7 @@ Print Assumptions C08_new_const_spec.
    displacement not encodable against a label already bound in the same section, already bound, invalid size, ...) is a function of that
    section's own operation sequence - the same in every interleaving of the sections (on C03's machine; same hypotheses) *)
 Theorem C08_errors_order_irrelevant : forall nl ns t1 t2, (forall k, proj k t1 = proj k t2) ->
-  tags_ok ns t1 -> tags_ok ns t2 -> NoDup (bound_labels t1) ->
+  tags_ok ns t1 -> tags_ok ns t2 -> NoDup (bound_labels t1) -> delta_local_final nl ns t1 ->
   forall k, err_proj k t1 (run_errs (LabelsModel.run init (prelude nl ns)) t1) = err_proj k t2 (run_errs (LabelsModel.run init (prelude nl ns)) t2).
 Proof. exact errors_order_irrelevant. Qed.
 Print Assumptions C08_errors_order_irrelevant.
@@ -280,3 +319,45 @@ Theorem C08_end_func_flushes_local_pool : forall b fl l d e,
   lpool b' = None /\ gpool b' = gpool b /\ cur_func b' = None /\ snd (BuilderModel.step b CEndFunc) = kOk.
 Proof. exact end_func_flushes_local_pool. Qed.
 Print Assumptions C08_end_func_flushes_local_pool.
+
+From Verif Require X86Validate.ValidateModel Builder.ValidateBridge.
+
+(* VALIDATION PARITY over C13's validator model (Verif.X86Validate.ValidateModel.validate, the transliteration of
+   x86::InstInternal::validate tied to /repo by C13's check): for every decoding [dec] of operands under which "empty" means "empty
+   signature" and every tables/mode, the call the Builder REPLAYS for a recorded instruction node - reserved option bit cleared, empty
+   slots after the last operand rewritten by op_array - gets the verdict of the original call (Assembler: kValidateAssembler; Builder at
+   record time: kValidateIntermediate on all six slots, /repo 839e6db; virt = Compiler). *)
+Theorem C08_validation_parity : forall (T : ValidateModel.vtables) (zq x64 : bool) (dec : operand -> ValidateModel.operand) (xtype : Z -> N),
+  (forall o, dec o = ValidateModel.ONone <-> is_none o = true) ->
+  forall virt b id o0 o1 o2 o3 o4 o5,
+  match node_ecalls (inst_node b id o0 o1 o2 o3 o4 o5) with
+  | [EInst id' opts' es' ei' ops' _] =>
+      ValidateBridge.verdict T zq x64 dec xtype virt id' opts' es' ei' ops'
+      = ValidateBridge.verdict T zq x64 dec xtype virt id (p_opts b) (p_exsig b) (p_exid b) [o0; o1; o2; o3; o4; o5]
+  | _ => False
+  end.
+Proof. exact ValidateBridge.validation_parity. Qed.
+Print Assumptions C08_validation_parity.
+
+(* the validator ignores the reserved option bit (the one difference between the options of a node and of the call) *)
+Theorem C08_validate_ignores_reserved : forall T zq x64 virt inst ops,
+  ValidateModel.validate T zq x64 virt (ValidateBridge.with_options inst (N.ldiff (ValidateModel.vi_options inst) 1)) ops
+  = ValidateModel.validate T zq x64 virt inst ops.
+Proof. exact ValidateBridge.validate_ignores_reserved. Qed.
+Print Assumptions C08_validate_ignores_reserved.
+
+(* a call the validator ACCEPTS has no operand after an empty slot, hence the operand count of the unrepaired op_count_from_emit_args
+   equals the repaired one: under strict validation no recorded instruction ever lost an operand (C08/operand-after-hole-dropped is a
+   defect of unvalidated streams only) *)
+Theorem C08_accepted_call_has_no_hole : forall (T : ValidateModel.vtables) (zq x64 : bool) (dec : operand -> ValidateModel.operand) (xtype : Z -> N),
+  (forall o, dec o = ValidateModel.ONone <-> is_none o = true) ->
+  forall virt id opts es ei o0 o1 o2 o3 o4 o5,
+  ValidateBridge.verdict T zq x64 dec xtype virt id opts es ei [o0; o1; o2; o3; o4; o5] = ValidateModel.E_Ok ->
+  (forall i j, (i < j)%nat -> is_none (nth i [o0; o1; o2; o3; o4; o5] op_none) = true -> is_none (nth j [o0; o1; o2; o3; o4; o5] op_none) = true) /\
+  op_count_legacy o0 o1 o2 o3 o4 o5 = op_count o0 o1 o2 o3 o4 o5.
+Proof.
+  intros T zq x64 dec xtype HD virt id opts es ei o0 o1 o2 o3 o4 o5 H. split.
+  - exact (ValidateBridge.accepted_no_operand_after_hole T zq x64 dec xtype HD virt id opts es ei o0 o1 o2 o3 o4 o5 H).
+  - exact (ValidateBridge.accepted_counts_agree T zq x64 dec xtype HD virt id opts es ei o0 o1 o2 o3 o4 o5 H).
+Qed.
+Print Assumptions C08_accepted_call_has_no_hole.
